@@ -445,7 +445,10 @@ class Engine:
             outs.append((st1, v))
         return outs
     def e_Name(s, e, st, ctx):
-        if e.id in st.locals: return [(st, st.locals[e.id])]
+        if e.id in st.locals:
+            v = st.locals[e.id]
+            if isinstance(v, tuple) and len(v) == 3 and v[0] == "fieldref": return [(st, st.getf(v[1], v[2]))]      # a local that aliases a mutable byte buffer held in a field
+            return [(st, v)]
         for q in (f"{ctx.cls}.{e.id}" if ctx.cls else None, f"{ctx.module}.{e.id}"):
             if q and q in s.consts: return [(st, s.consts[q])]
         if f"{ctx.module}.{e.id}" in s.classes: return [(st, ("class", f"{ctx.module}.{e.id}"))]
@@ -1237,6 +1240,7 @@ class Engine:
     def exec_block(s, stmts, st, ctx):
         """returns list of (state, flow, value)"""
         frontier = [(st, NORMAL, None)]
+        stmts = s.unrotate_loops(list(stmts))
         for stmt in stmts:
             nxt = []
             for st1, flow, val in frontier:
@@ -1252,6 +1256,35 @@ class Engine:
                 nxt += res
             frontier = nxt
         return frontier
+
+    def unrotate_loops(s, stmts):
+        """`x = E; while c(x): B; x = E`  ==>  `while True: x = E; if not c(x): break; B`  (same behaviour when B has no `continue` of its own level): the loop head is then
+        the point *before* E runs, which is where loop invariants over the object state are stated (same as for `while True:` / walrus loops)"""
+        out = []; i = 0
+        while i < len(stmts):
+            a = stmts[i]; w = stmts[i + 1] if i + 1 < len(stmts) else None
+            if (isinstance(a, ast.Assign) and isinstance(w, ast.While) and not w.orelse and w.body and isinstance(w.body[-1], ast.Assign)
+                    and ast.dump(a) == ast.dump(w.body[-1]) and len(a.targets) == 1 and isinstance(a.targets[0], ast.Name)
+                    and any(isinstance(x, ast.Name) and x.id == a.targets[0].id for x in ast.walk(w.test))
+                    and not s._has_own_continue(w.body[:-1]) and isinstance(a.value, ast.Call)):
+                first = _copy.deepcopy(a)
+                brk = ast.If(test=ast.UnaryOp(op=ast.Not(), operand=_copy.deepcopy(w.test)), body=[ast.Break()], orelse=[])
+                nw = ast.While(test=ast.Constant(value=True), body=[first, brk] + list(w.body[:-1]), orelse=[])
+                for n_ in (brk, nw): ast.copy_location(n_, w)
+                ast.fix_missing_locations(nw)
+                nw.lineno, nw.col_offset = w.lineno, w.col_offset
+                out.append(nw); i += 2; continue
+            out.append(a); i += 1
+        return out
+    def _has_own_continue(s, body):
+        def walk(nodes):
+            for n in nodes:
+                if isinstance(n, ast.Continue): return True
+                if isinstance(n, (ast.For, ast.While, ast.FunctionDef, ast.Lambda)): continue
+                for ch in ast.iter_child_nodes(n):
+                    if walk([ch]): return True
+            return False
+        return walk(body)
 
     def stmt_selector(s, stmt):
         """shape-based selector for cut points: 'assign:<name>' for the statement assigning that name"""
@@ -1304,22 +1337,44 @@ class Engine:
                     if not isinstance(ch, SBytes): raise Unsupported("extend with non-bytes")
                     if z3.is_int_value(z3.simplify(cur.n)) and z3.simplify(cur.n).as_long() == 0:
                         # extending an empty bytearray: the result has the content of the argument (same view, copied by value)
-                        s.assign(target, SBytes(ch.arr, ch.n, ch.off), st2, ctx); outs.append((st2, NORMAL, None)); continue
+                        s.assign_mut(target, SBytes(ch.arr, ch.n, ch.off), st2, ctx); outs.append((st2, NORMAL, None)); continue
                     if cur.arr.eq(ch.arr):
                         gap = st2.fork(); gap.pc.append(cur.off + cur.n != ch.off)
                         if not s.feasible(gap):
                             # the argument is the slice that directly follows the receiver in the same array: the view just grows
-                            s.assign(target, SBytes(cur.arr, z3.simplify(cur.n + ch.n), cur.off), st2, ctx); outs.append((st2, NORMAL, None)); continue
+                            s.assign_mut(target, SBytes(cur.arr, z3.simplify(cur.n + ch.n), cur.off), st2, ctx); outs.append((st2, NORMAL, None)); continue
                     arr2 = fresh("ext", BYTE_ARR); k = z3.Int("k__e"); o = cur.off; n = cur.n
                     st2.pc.append(z3.ForAll([k], z3.Implies(z3.And(o <= k, k < o + n), arr2[k] == cur.arr[k])))
                     st2.pc.append(z3.ForAll([k], z3.Implies(z3.And(0 <= k, k < ch.n), arr2[o + n + k] == ch.at(k))))
                     new = SBytes(arr2, z3.simplify(n + ch.n), cur.off)
-                s.assign(target, new, st2, ctx)
+                s.assign_mut(target, new, st2, ctx)
                 outs.append((st2, NORMAL, None))
         return outs
 
+    def is_bytearray_field(s, cls, attr):
+        """the class stores a bytearray in self.<attr> (assignment `self.attr = bytearray(...)` or an annotation naming bytearray)"""
+        for c in [cls] + list(s.bases.get(cls, [])):
+            for q, (fn, _m, k) in s.funcs.items():
+                if k != c: continue
+                for n in ast.walk(fn):
+                    tgt = val = ann = None
+                    if isinstance(n, ast.Assign) and len(n.targets) == 1: tgt, val = n.targets[0], n.value
+                    elif isinstance(n, ast.AnnAssign): tgt, val, ann = n.target, n.value, n.annotation
+                    if not (isinstance(tgt, ast.Attribute) and isinstance(tgt.value, ast.Name) and tgt.value.id == "self" and tgt.attr == attr): continue
+                    if isinstance(val, ast.Call) and isinstance(val.func, ast.Name) and val.func.id == "bytearray": return True
+                    if ann is not None and "bytearray" in ast.unparse(ann): return True
+        return False
     def x_Assign(s, stmt, st, ctx):
         outs = []
+        # `x = obj.field` where the field holds a bytearray: x aliases the same mutable object (x.clear() / x.append() act on the field, and the field's later changes show through x)
+        if len(stmt.targets) == 1 and isinstance(stmt.targets[0], ast.Name) and isinstance(stmt.value, ast.Attribute):
+            for st1, base in s.eval(stmt.value.value, st, ctx):
+                attr = s.mangle(stmt.value.attr, ctx)
+                if isinstance(base, Ref) and attr in st1.heap[base.oid][1] and isinstance(st1.getf(base, attr), SBytes) and s.is_bytearray_field(st1.cls(base), attr):
+                    st1.locals[stmt.targets[0].id] = ("fieldref", base, attr); outs.append((st1, NORMAL, None))
+                else: outs = None; break
+            if outs is not None: return outs
+            outs = []
         for st1, v in s.eval(stmt.value, st, ctx):
             if isinstance(v, Raised): outs.append((st1, RAISE, v)); continue
             for t in stmt.targets: s.assign(t, v, st1, ctx)          # a = b = value: evaluated once, bound left to right
@@ -1338,12 +1393,12 @@ class Engine:
             load = _copy.deepcopy(t.value); load.ctx = ast.Load()
             value = ast.Subscript(value=load, slice=sl, ctx=ast.Load()) if sl is not None else ast.Subscript(value=load, slice=ast.Slice(lower=ast.Constant(value=0), upper=ast.Constant(value=0)), ctx=ast.Load())
             store = _copy.deepcopy(t.value); store.ctx = ast.Store()
-            asg = ast.fix_missing_locations(ast.copy_location(ast.Assign(targets=[store], value=value), stmt))
+            value = ast.fix_missing_locations(ast.copy_location(value, stmt)); store = ast.copy_location(store, stmt)
             nxt = []
             for s0 in states:
-                for st1, flow, v in s.x_Assign(asg, s0, ctx):
-                    if flow != NORMAL: return [(st1, flow, v)] if len(states) == 1 else (_ for _ in ()).throw(Unsupported("Delete raising on a forked state"))
-                    nxt.append(st1)
+                for st1, v in s.eval(value, s0, ctx):
+                    if isinstance(v, Raised): return [(st1, RAISE, v)] if len(states) == 1 else (_ for _ in ()).throw(Unsupported("Delete raising on a forked state"))
+                    s.assign_mut(store, v, st1, ctx); nxt.append(st1)
             states = nxt
         return [(x, NORMAL, None) for x in states]
     def x_AnnAssign(s, stmt, st, ctx):
@@ -1359,8 +1414,14 @@ class Engine:
                ast.copy_location(ast.Attribute(value=stmt.target.value, attr=stmt.target.attr, ctx=ast.Load()), stmt.target)
         for st1, vs in s.eval_seq([load, stmt.value], st, ctx):
             if isinstance(vs, Raised): outs.append((st1, RAISE, vs)); continue
-            s.assign(stmt.target, s.binop(stmt.op, vs[0], vs[1], stmt, st1, ctx), st1, ctx); outs.append((st1, NORMAL, None))
+            s.assign_mut(stmt.target, s.binop(stmt.op, vs[0], vs[1], stmt, st1, ctx), st1, ctx); outs.append((st1, NORMAL, None))      # `x += y` on an aliased bytearray is in place
         return outs
+    def assign_mut(s, target, v, st, ctx):
+        """the receiver of an in-place operation gets its new value: through a field reference when the local aliases a field"""
+        if isinstance(target, ast.Name):
+            cur = st.locals.get(target.id)
+            if isinstance(cur, tuple) and len(cur) == 3 and cur[0] == "fieldref": st.setf(cur[1], cur[2], v); return
+        s.assign(target, v, st, ctx)
     def assign(s, target, v, st, ctx):
         if isinstance(target, ast.Tuple) and isinstance(v, (SStrList, SList)):
             # unpacking a list of symbolic length: supported when the path condition fixes the length to the number of targets
@@ -1589,7 +1650,13 @@ class Engine:
                 elif isinstance(cur, SBV): assert cur.w <= w
                 st_h.locals[name] = SBV(fresh(name, z3.BitVecSort(w)))
             elif name in st_h.locals:
-                st_h.locals[name] = s.havoc_like(cur, name)
+                if isinstance(cur, tuple) and len(cur) == 3 and cur[0] == "fieldref": continue          # alias of a field: the binding stays, the field is havocked with its object
+                try: st_h.locals[name] = s.havoc_like(cur, name)
+                except Unsupported:
+                    # a local the loop body always assigns before it reads it (and that is not read after the loop through this path) carries nothing between iterations
+                    fn_ = s.funcs.get(ctx.qual)
+                    if _reads_incoming(stmt.body, name) == "read" or (isinstance(stmt, ast.While) and any(isinstance(x, ast.Name) and x.id == name and isinstance(x.ctx, ast.Load) for x in ast.walk(stmt.test))): raise
+                    st_h.locals.pop(name, None)
         shapes = [st_h]
         if havoc_heap:
             r = havoc_heap(st_h, s)
@@ -1835,6 +1902,8 @@ class Ctx:
         loops = sorted((n for n in ast.walk(fn[0]) if isinstance(n, (ast.For, ast.While))), key=lambda n: (n.lineno, n.col_offset))
         for i, n in enumerate(loops):
             if n is stmt: return i
+        for i, n in enumerate(loops):          # a loop node synthesised from this function's source (un-rotated loop): same position
+            if (n.lineno, n.col_offset) == (getattr(stmt, "lineno", -1), getattr(stmt, "col_offset", -1)) and type(n) is type(stmt): return i
         return s.next_loop()
     def oblige(s, st, kind, goal, node, reveal=False, **meta):
         g = goal if isinstance(goal, z3.ExprRef) else z3.BoolVal(bool(goal))
